@@ -455,6 +455,10 @@ def validate(ctx, exe, cases, st=None):
     events (last line of each doc)"""
     lines = run_harness(ctx, exe, cases)
     tick(ctx, 'harness ran %d cases' % len(cases))
+    return judge(ctx, cases, lines, st)
+
+
+def judge(ctx, cases, lines, st=None):
     groups = {}
     order = []
     for l in lines:
@@ -534,19 +538,27 @@ def describe(c, e, whys):
 
 
 def confirm(ctx, exe, cases, rejected):
-    """every rejected text is re-run alone in a fresh process and re-validated before it counts"""
-    n = 0
-    for i in sorted(rejected)[:200]:
+    """rejected texts are re-run, each ALONE in a fresh harness process, and re-validated before they count
+    (the shortest 25 of a batch: one defect usually rejects thousands of texts)"""
+    def size(i):
         c = cases[i]
-        rej2, last2 = validate(ctx, exe, [c])
-        if 0 in rej2:
-            n += 1
-            out = None
-            if 'text' in c:
-                out = one_output(ctx, exe, c)
-            ctx.report(ident(c), describe(c, last2[0], rej2[0]), replay_obj=dict(event=last2[0], why=rej2[0], output=out))
-        else:
-            raise vlib.Infra('rejection of case %r (%s) did not reproduce in isolation' % (ident(c), rejected[i]))
+        return (len(c['text']) if 'text' in c else c['len'] or 10 ** 9, i)
+    pick = sorted(rejected, key=size)[:25]
+    sub = [cases[i] for i in pick]
+    lines = []
+    for k, c in enumerate(sub):
+        for l in run_harness(ctx, exe, [c]):
+            lines.append(re.sub(r'^\{"id":0,', '{"id":%d,' % k, l))
+    rej2, last2 = judge(ctx, sub, lines)
+    n = 0
+    for k, c in enumerate(sub):
+        if k not in rej2:
+            raise vlib.Infra('rejection of case %r (%s) did not reproduce in isolation' % (ident(c), rejected[pick[k]]))
+        n += 1
+        if len(ctx.violations) >= 10 and vlib.case_key(ident(c)) not in ctx._known:
+            continue
+        out = one_output(ctx, exe, c) if 'text' in c else None
+        ctx.report(ident(c), describe(c, last2[k], rej2[k]), replay_obj=dict(event=last2[k], why=rej2[k], output=out))
     return n
 
 
